@@ -121,6 +121,12 @@ impl<L: Language, N: Analysis<L>> EGraph<L, N> {
             out
         };
 
+        // A symmetry that maps a kept slot to a dropped one cannot be restricted to `cap`.
+        // It is re-asserted as an equation below: that makes the rest of the orbit redundant, too.
+        let (generators, leftover): (Vec<ProvenPerm>, Vec<ProvenPerm>) = generators
+            .into_iter()
+            .partition(|p| p.iter().all(|(x, y)| cap.contains(&x) == cap.contains(&y)));
+
         let generators = generators.into_iter().map(restrict_proven).collect();
         let identity = ProvenPerm::identity(id, &cap, syn_slots, self.proof_registry.clone());
         if CHECKS {
@@ -130,6 +136,17 @@ impl<L: Language, N: Analysis<L>> EGraph<L, N> {
         c.group = Group::new(&identity, generators);
 
         self.touched_class(from.id, PendingType::Full);
+
+        for p in leftover {
+            // an earlier iteration may have shrunk the class further.
+            let slots = self.slots(id);
+            let l = self.mk_sem_identity_applied_id(id);
+            let r_map = p.iter().filter(|(x, _)| slots.contains(x)).collect();
+            let r = self.mk_sem_applied_id(id, r_map);
+            #[allow(unused)]
+            let proof = ghost!(p.proof.clone());
+            self.union_internal(&l, &r, proof);
+        }
     }
 
     pub(crate) fn rebuild(&mut self) {
